@@ -159,13 +159,6 @@ Proof.
   - destruct (dec_aux_shape 40 n [] ltac:(lia) Hb) as [d [ds [E [Hd Hds]]]]. unfold dec. rewrite E, app_nil_r.
     constructor; [|exact Hds]. unfold is_digit19 in Hd. unfold is_digit. lia.
 Qed.
-Lemma arg_json_lex : forall entry raw, lex_run S_body (arg_json entry raw) = Some S_body.
-Proof.
-  intros entry raw. rewrite arg_json_eq. rewrite lex_run_app.
-  assert (E : lex_run S_body (if entry then [40] else []) = Some S_body) by (destruct entry; reflexivity).
-  rewrite E, lex_run_app, arg_body_lex. destruct entry; reflexivity.
-Qed.
-
 (* ---- the containers the events live in: the traceEvents array inside the top-level object ---- *)
 Definition ARR : list bool := [false; true].
 Definition OBJ : list bool := true :: ARR.
@@ -213,7 +206,7 @@ Proof.
   rewrite (jrun_app_some _ _ _ _ (fr_name nz2 Hz2)).
   rewrite jrun_body_app by apply escape_bounded_body.
   destruct (e_arg e) as [raw|].
-  - rewrite (jrun_app_some _ _ _ _ (fr_args _)). rewrite jrun_body_app by apply arg_json_lex. apply fr_end2.
+  - rewrite (jrun_app_some _ _ _ _ (fr_args _)). rewrite jrun_body_app by apply args_text_lex. apply fr_end2.
   - apply fr_end1.
 Qed.
 
@@ -314,7 +307,7 @@ Proof. vm_compute. split; reflexivity. Qed.
 (* non-vacuity: a document with two tasks, three events (one with an argument string), a command line *)
 Example chrome_doc_example :
   json_ok (chrome_doc true [(100, [112; 34]); (101, [113])]
-             [{| e_begin := true; e_pid := 100; e_tid := None; e_name := [109; 34; 10]; e_time := 1234567; e_arg := Some [97; 9; 0] |};
+             [{| e_begin := true; e_pid := 100; e_tid := None; e_name := [109; 34; 10]; e_time := 1234567; e_arg := Some [AStr [97; 9; 0]; AChr 34] |};
               {| e_begin := false; e_pid := 100; e_tid := Some 101; e_name := [102]; e_time := 0; e_arg := None |}]
              [118; 48] [84; 104; 117] (Some [112; 32; 92; 34; 120; 92])) = true.
 Proof. vm_compute. reflexivity. Qed.
